@@ -42,7 +42,7 @@ REGISTRY = dict(
 OPTION_SETS = {
     "quick": [[]],
     "thorough": [[], ["naming_style=golint"], ["naming_style=apache"], ["compatible_names"], ["nil_safe", "gen_setter"],
-                 ["keep_unknown_fields"], ["reorder_fields"], ["with_reflection"], ["enable_nested_struct"],
+                 ["keep_unknown_fields"], ["reorder_fields"], ["with_reflection"], ["enum_as_int_32", "typed_enum_string"],
                  ["value_type_in_container"]],
 }
 
@@ -81,7 +81,7 @@ def make_plans(svcs, vidx, tier, seed):
         def pick(pred, j):
             c = [(ds, m) for ds, m in tab if pred(ds, m)]
             return c[j % len(c)] if c else None
-        nmix = 1 if tier == "quick" else 3
+        nmix = 1 if tier == "quick" else 2
         base = rnd.randrange(1000)
         for j in range(nmix):
             jj = base + j
@@ -538,7 +538,7 @@ def run(ctx, args):
     run_lab(ctx, u, cases, plan_meta, opts[:1], "main")
     if thorough:
         B = 3
-        sub = sample_cases(ctx, cases, plan_meta, 1500, 1500)
+        sub = sample_cases(ctx, cases, plan_meta, 1000, 1000)
         for off in range(1, len(opts), B):
             run_lab(ctx, u, sub, plan_meta, opts[off:off + B], "o%d" % off)
     ctx.extra_cov["probe_observations"] = u.probe_obs
